@@ -138,7 +138,42 @@ def judge(case):
         else:
             for tree, comp in zip(case["trees"], comps1):
                 fails += denote(tree, comp, provider)
+    # ---- O-history: the parse is a function of the text alone.  Scribble on everything mutable the first result handed out
+    # (parameters, list-valued parameters, value lists), parse the same text again and compare with what the first parse
+    # gave before the scribbling: results of different parses (and equal lines of one parse) share no state.
+    try:
+        e_before = [T.extract(c) for c in comps1]
+        _scribble(comps1)
+        sut.reset(provider)      # same (empty) VTIMEZONE cache as for the first parse: that history is C12's RC-L, not this clause
+        t3 = parse(text, multiple, case.get("as_bytes", True))
+        e_after = [T.extract(c) for c in (t3 if multiple else [t3])]
+        if e_after != e_before:
+            fails.append(Failure("C01.denote", "parse-depends-on-edits-to-an-earlier-result", _diff(e_before, e_after) + f" | input={text[:160]!r}"))
+    except Exception as e:  # noqa: BLE001
+        fails.append(Failure("C01.denote", "second-parse-of-the-same-text-raises/" + exc_signature(e), f"{e!r} input={text[:200]!r}"[:500]))
     return fails[:10]
+
+
+def _scribble(comps):
+    """edit in place what a caller may edit on a parsed tree: parameter maps, list-valued parameters, multi-value lists"""
+    for root in comps:
+        for comp in root.walk():
+            for name in list(comp.keys()):
+                vals = comp[name]
+                many = vals if isinstance(vals, list) else [vals]
+                for v in many:
+                    params = getattr(v, "params", None)
+                    if params is None:
+                        continue
+                    for k in list(params.keys()):
+                        if isinstance(params[k], list):
+                            params[k].append("scribble")
+                    params["X-SCRIBBLE"] = "1"
+                    for attr in ("cats", "dts"):
+                        if isinstance(getattr(v, attr, None), list):
+                            getattr(v, attr).append(getattr(v, attr)[0]) if getattr(v, attr) else None
+                if isinstance(vals, list):
+                    vals.append(vals[0])
 
 
 def denote(tree, root, provider):
